@@ -3,14 +3,17 @@
 (*  cases : PDUs built from field values  [name, vals, err, n, bits, dec, bits2]        *)
 (*  raws  : arbitrary right-length bit strings [family, n, outcome, n1, bits1, bits2]   *)
 (*  elems : every value of every element enumeration [enum, w, v, defined, result, rname, wbits, back] *)
+(*  gps   : GPS-info link controls built from in-range coordinates that are NOT on the    *)
+(*          25 / 24 bit grid: [w, raw, quarter, err, n, total, dec] - the built value is   *)
+(*          (raw + quarter/4) steps (raw signed), dec the signed grid index decoded back  *)
 EXTENDS PDULayouts, Elements, Json, IOUtils, TLC
 
 D == JsonDeserialize(IOEnv.DATA_FILE)
 VARIABLES phase, chunk, idx
 vars == <<phase, chunk, idx>>
 ChunkSize == 64
-Size(ph) == CASE ph = "case" -> Len(D.cases) [] ph = "raw" -> Len(D.raws) [] ph = "elem" -> Len(D.elems)
-Init == phase \in {"case", "raw", "elem"} /\ chunk \in 0..((Size(phase) + ChunkSize - 1) \div ChunkSize - 1) /\ idx = -1
+Size(ph) == CASE ph = "case" -> Len(D.cases) [] ph = "raw" -> Len(D.raws) [] ph = "elem" -> Len(D.elems) [] ph = "gps" -> Len(D.gps)
+Init == phase \in {"case", "raw", "elem", "gps"} /\ chunk \in 0..((Size(phase) + ChunkSize - 1) \div ChunkSize - 1) /\ idx = -1
 Next == idx = -1 /\ idx' \in (chunk * ChunkSize)..((chunk + 1) * ChunkSize - 1) /\ idx' < Size(phase) /\ UNCHANGED <<phase, chunk>>
 Spec == Init /\ [][Next]_vars
 
@@ -44,6 +47,17 @@ Judge(ph, i) ==
                   ELSE IF e.result >= 0 /\ e.back # e.result THEN "ElementBitsRoundTrip"
                   ELSE IF e.result >= 0 /\ e.wbits # e.w THEN "ElementWidth" ELSE "ok",
           dr |-> "ok"]
+
+    [] ph = "gps" ->
+         \* an in-range coordinate between two grid points is a legal field value: the PDU serialises to its fixed length and
+         \* the decoded value is one of the two neighbouring grid points that the field can hold
+         LET g == D.gps[i + 1]
+             top == 2 ^ (g.w - 1) - 1
+             near == {x \in {g.raw, g.raw + 1} : x <= top}
+         IN [why |-> IF g.err # "" THEN "BuildSerialiseParse(off-grid coordinate)/" \o g.err
+                     ELSE IF g.n # g.total THEN "FixedLength"
+                     ELSE IF g.dec \notin near THEN "CoordinateWithinOneStep" ELSE "ok",
+             dr |-> "ok"]
 
 ASSUME ClassesDisjoint
 
